@@ -251,7 +251,7 @@ def audit_real_pair(pair, failures, stats):
             m = low[0]
             failures.append({"kind": what + "-lowers-output", "kind_of_failure": what + "-lowers-output", "real_pair": pair,
                              "what": f"{pair['iso3']} {pair['options'].get('crop_disruption')} CROP_PRODUCTION_MULTIPLIER="
-                                     f"{pair['options'].get('CROP_PRODUCTION_MULTIPLIER')}: scenario {scen_on} gives {on[m]!r} in month {m}, "
+                                     f"{pair['options'].get('CROP_PRODUCTION_MULTIPLIER')} power_law_improvement={pair['options'].get('power_law_improvement')}: scenario {scen_on} gives {on[m]!r} in month {m}, "
                                      f"{scen_off} gives {off[m]!r} ({len(low)} of {len(on)} months lower)", "month": m})
 
 
